@@ -84,7 +84,7 @@ CONTRACTS = {
 }
 
 
-class AtLeast:
+class AtLeast(puan.Proposition):
     def __init__(self, value, propositions, variable=None, sign=None):
         self.generated_id = False
         self.value = value
@@ -320,7 +320,7 @@ class AtLeast:
         return base64.b64encode(gzip.compress(pickle.dumps(self, protocol=pickle.HIGHEST_PROTOCOL), mtime=0)).decode(str_decoding)
 
 
-class AtMost:
+class AtMost(AtLeast):
     def __init__(self, value, propositions, variable=None):
         AtLeast.__init__(self, value=-value, propositions=propositions, variable=variable, sign=-1)
 
@@ -336,7 +336,7 @@ class AtMost:
         return d
 
 
-class All:
+class All(AtLeast):
     def __init__(self, *propositions, variable=None):
         AtLeast.__init__(self, value=len(set(propositions)), propositions=propositions, variable=variable)
 
@@ -351,7 +351,7 @@ class All:
         return d
 
 
-class Any:
+class Any(AtLeast):
     def __init__(self, *propositions, variable=None):
         AtLeast.__init__(self, value=1, propositions=propositions, variable=variable)
 
@@ -366,7 +366,7 @@ class Any:
         return d
 
 
-class Imply:
+class Imply(Any):
     def __init__(self, condition, consequence, variable=None):
         if type(condition) == str or issubclass(condition.__class__, puan.variable):
             condition = All(condition)
@@ -420,7 +420,7 @@ class Imply:
             return consequence
 
 
-class Xor:
+class Xor(All):
     def __init__(self, *propositions, variable=None):
         All.__init__(self, AtLeast(value=1, propositions=propositions), AtMost(value=1, propositions=propositions), variable=variable)
 
@@ -436,6 +436,10 @@ class Xor:
         return d
 
 
+class ExactlyOne(Xor):
+    pass
+
+
 class Not:
     def __new__(self, proposition):
         return (All(proposition) if type(proposition) == str or issubclass(proposition.__class__, puan.variable) else proposition).negate()
@@ -447,7 +451,7 @@ class Not:
         return Not(from_json(data['proposition'], class_map=class_map))
 
 
-class XNor:
+class XNor(Any):
     def __init__(self, *propositions, variable=None):
         Any.__init__(self, AtLeast(value=1, propositions=propositions).negate(), AtMost(value=1, propositions=propositions).negate(),
                      variable=variable)
